@@ -2,10 +2,24 @@
   C12 — "applying a functor to a diagram yields, up to isomorphism, the diagram obtained by
   SUBSTITUTION": every node labelled `A` is replaced by the list of nodes `F(A)`, the hyperedges by
   the image `Fx` of the operation batch glued along the expanded source and target lists, both
-  interfaces expanded likewise (`map_arrow_isSubst`, the statement left open in `Props/C12.lean`).
-  Corollaries: the functor preserves identities, tensor, composition, symmetry and dagger up to
-  isomorphism, and the identity functor returns a diagram isomorphic to its argument.
-  Everything is for EVERY lawful backend.  Helpers: `OHVerif/Lemmas/Subst.lean`.
+  interfaces expanded likewise.  Everything is for EVERY lawful backend.
+
+  * `map_arrow_isSubst : map_arrow_isSubst_statement` — the statement left open in `Props/C12.lean`,
+    proved as written (the image even IS a quotient of the substitution presentation);
+    `mapArrow_subst` is the same in terms of the hypothesis bundle `FunctorOK` of the typing clause.
+  * `map_dagger` — `F(f†) ≅ F(f)†`, for any well-typed functor data;
+  * `identity_functor` — `Id(f) ≅ f`;
+  * `map_id`, `map_twist` (via `map_spider`) — identities and symmetries are preserved by functors
+    that are generated on objects (`FunctorHom`) and send the empty batch to the empty diagram
+    (`OpsUnit`); `map_id_needs_opsUnit`: the extra hypothesis cannot be dropped;
+  * `map_tensor`, `map_comp` — tensor and composition are preserved by functors that are generated
+    on objects and whose operation part is monoidal up to `≅` (`OpsTensor`);
+    `map_tensor_needs_opsTensor`: the extra hypothesis cannot be dropped;
+  * `identityF_opsUnit / identityF_opsTensor`, `dyn_opsUnit / dyn_opsTensor` — the two library
+    functors (strict identity, `DynFunctor` of a generator-wise lax functor with good generator
+    images) satisfy the extra hypotheses;
+  * `mapArrow_relabel` — functor application respects a renumbering of the nodes.
+  Helpers: `OHVerif/Lemmas/Subst.lean`.
 -/
 import OHVerif.Lemmas.Subst
 import OHVerif.Props.C10Iso
@@ -964,5 +978,469 @@ example : FunctorHom (LFunctor.toDyn vecBackend tyExG) tyExG.mapObject ∧
       (fun a s t => genOK_singleton (fun o => List.replicate (o - 10) o) (fun a _ _ => a + 1) a s t),
     dyn_opsTensor vecBackend vecBackend_lawful tyExG _
       (fun a s t => genOK_singleton (fun o => List.replicate (o - 10) o) (fun a _ _ => a + 1) a s t)⟩
+
+/-! ## composition -/
+
+/-- the composite `f ; g` as a node quotient of "`f ⊗ g` with the outer interfaces": the data
+    `OHG.compose` computes, with the quotient map `p`, its kernel and the labels -/
+theorem compose_quotient_data [DecidableEq O1] (B : Backend) (hB : B.Lawful) (f g : OHG O1 A1)
+    (hf : f.WF) (hg : g.WF)
+    (hty : Prim.gatherP f.h.w f.t.table = Prim.gatherP g.h.w g.s.table) :
+    ∃ (c : OHG O1 A1) (p : Nat → Nat), OHG.compose B f g = .ok c ∧ c.WF ∧
+      (∀ i, i < f.h.w.length + g.h.w.length → p i < c.h.w.length) ∧
+      (∀ k, k < c.h.w.length → ∃ i, i < f.h.w.length + g.h.w.length ∧ p i = k) ∧
+      (∀ i, i < f.h.w.length + g.h.w.length → c.h.w[p i]? = (f.h.w ++ g.h.w)[i]?) ∧
+      (∀ i j, i < f.h.w.length + g.h.w.length → j < f.h.w.length + g.h.w.length →
+        (p i = p j ↔ Relation.EqvGen (fun a b => ∃ k : Nat, f.t.table[k]? = some a ∧
+          (g.s.table.map (f.h.w.length + ·))[k]? = some b) i j)) ∧
+      f.t.table.map p = (g.s.table.map (f.h.w.length + ·)).map p ∧
+      c.h.x = f.h.x ++ g.h.x ∧
+      c.h.s.sources = (IC.tensorR f.h.s g.h.s).sources ∧
+      c.h.t.sources = (IC.tensorR f.h.t g.h.t).sources ∧
+      c.h.s.values.table = (IC.tensorR f.h.s g.h.s).values.table.map p ∧
+      c.h.t.values.table = (IC.tensorR f.h.t g.h.t).values.table.map p ∧
+      c.s.table = f.s.table.map p ∧
+      c.t.table = (g.t.table.map (f.h.w.length + ·)).map p := by
+  have hlen : f.t.table.length = g.s.table.length := by
+    have := congrArg List.length hty
+    rwa [FinFun.gatherP_length _ _ hf.tgt_lt, FinFun.gatherP_length _ _ hg.src_lt] at this
+  obtain ⟨q, w', hq, hqw, hqs, hsurj, hwl, hgw, hc⟩ := OHG.compose_ok B hB f g hf hg hty
+  have hwl' := C06.inject0_wf f.t g.h.w.length hf.tgt_wf
+  have hwr' := C06.inject1_wf g.s f.h.w.length hg.src_wf
+  obtain ⟨q', hq', _, _, _, hker, hgen⟩ := C06.coequalizer_spec B hB
+    (FinFun.inject0 f.t g.h.w.length) (FinFun.inject1 g.s f.h.w.length) hwl' hwr'
+    (by simp [FinFun.source, FinFun.inject0, FinFun.inject1, hlen])
+    (by simp only [FinFun.inject0, FinFun.inject1]; rw [hf.tgt_nodes, hg.src_nodes, Nat.add_comm])
+  rw [hq] at hq'
+  cases hq'
+  have htg : (FinFun.inject0 f.t g.h.w.length).target = f.h.w.length + g.h.w.length := by
+    simp only [FinFun.inject0]; rw [hf.tgt_nodes, Nat.add_comm]
+  rw [htg] at hker
+  have hget : ∀ i, i < f.h.w.length + g.h.w.length → q.table[i]? = some (q.table.getD i 0) := by
+    intro i hi
+    have : i < q.table.length := by rw [← hqs] at hi; exact hi
+    simp [List.getD_eq_getElem?_getD, List.getElem?_eq_getElem this]
+  have hcw := (OHG.wf_iff _).1 (C01.compose_isGluing B hB f g _ ((OHG.wf_iff f).2 hf)
+    ((OHG.wf_iff g).2 hg) hc).2
+  have hmap : ∀ l : List Nat, (∀ i ∈ l, i < f.h.w.length + g.h.w.length) →
+      Prim.gatherP q.table l = l.map (fun i => q.table.getD i 0) :=
+    fun l hl => FinFun.gatherP_eq_map _ _ _ (fun i hi => hget i (hl i hi))
+  refine ⟨_, fun i => q.table.getD i 0, hc, hcw, ?_, ?_, ?_, ?_, ?_, rfl, rfl, rfl, rfl, rfl, ?_, ?_⟩
+  · intro i hi
+    show _ < w'.length
+    rw [hwl]; exact FinFun.getD_lt q hqw i (by rw [hqs]; exact hi)
+  · intro k hk
+    have hk' : k < q.target := by rw [← hwl]; exact hk
+    obtain ⟨i, hi⟩ := List.mem_iff_getElem?.1 (hsurj k hk')
+    have hil : i < f.h.w.length + g.h.w.length := by
+      rw [← hqs]; exact (List.getElem?_eq_some_iff.1 hi).1
+    refine ⟨i, hil, ?_⟩
+    have := hget i hil
+    rw [hi] at this
+    exact (Option.some.inj this).symm
+  · intro i hi
+    show w'[_]? = _
+    have := congrArg (·[i]?) hgw
+    simp only [FinFun.gatherP_getElem? _ _ (fun c hc' => by rw [hwl]; exact hqw c hc'), hget i hi,
+      Option.bind_some] at this
+    exact this
+  · intro i j hi hj
+    have := hker i j hi hj
+    rw [hget i hi, hget j hj, Option.some.injEq] at this
+    exact this
+  · apply List.ext_getElem?
+    intro k
+    simp only [List.getElem?_map]
+    cases ha : f.t.table[k]? with
+    | none =>
+      have : g.s.table[k]? = none := by
+        rw [List.getElem?_eq_none_iff] at ha ⊢; omega
+      rw [this]; rfl
+    | some a =>
+      have hk : k < g.s.table.length := by
+        rw [← hlen]; exact (List.getElem?_eq_some_iff.1 ha).1
+      rw [List.getElem?_eq_getElem hk]
+      simp only [Option.map_some, Option.some.injEq]
+      have hb : (FinFun.inject1 g.s f.h.w.length).table[k]? = some (f.h.w.length + g.s.table[k]) := by
+        simp [FinFun.inject1, List.getElem?_eq_getElem hk]
+      have := hgen k a _ ha hb
+      have ha' : a < f.h.w.length + g.h.w.length := by
+        have := hf.tgt_lt a (List.mem_of_getElem? ha); omega
+      have hb' : f.h.w.length + g.s.table[k] < f.h.w.length + g.h.w.length := by
+        have := hg.src_lt _ (List.getElem_mem hk); omega
+      rw [hget _ ha', hget _ hb', Option.some.injEq] at this
+      exact this
+  · exact hmap _ (fun i hi => by have := hf.src_lt i hi; omega)
+  · apply hmap
+    intro i hi
+    obtain ⟨j, hj, rfl⟩ := List.mem_map.1 hi
+    have := hg.tgt_lt j hj; omega
+
+/-- PRESERVATION OF COMPOSITION: `F(f ; g) ≅ F(f) ; F(g)` for a functor generated by `obj` on
+    objects, well-typed on batches, whose operation part is monoidal up to isomorphism -/
+theorem map_comp [DecidableEq O1] [DecidableEq O2] (B : Backend) (hB : B.Lawful)
+    (F : SFunctor O1 A1 O2 A2) (obj : O1 → List O2) (hF : FunctorHom F obj) (hT : OpsTensor F)
+    (f g : OHG O1 A1) (hf : f.wf = true) (hg : g.wf = true) (hty : f.target = g.source) :
+    ∃ (c : OHG O1 A1) (r rf rg t : OHG O2 A2), OHG.compose B f g = .ok c ∧
+      SFunctor.mapArrow B F c = .ok r ∧ SFunctor.mapArrow B F f = .ok rf ∧
+      SFunctor.mapArrow B F g = .ok rg ∧ OHG.compose B rf rg = .ok t ∧
+      r.wf = true ∧ t.wf = true ∧ r.toPlain ≅ t.toPlain := by
+  have hfW := (OHG.wf_iff f).1 hf
+  have hgW := (OHG.wf_iff g).1 hg
+  have hty' : Prim.gatherP f.h.w f.t.table = Prim.gatherP g.h.w g.s.table := by
+    rw [OHG.target_eq f hfW.tgt_wf hfW.tgt_nodes, OHG.source_eq g hgW.src_wf hgW.src_nodes] at hty
+    exact Res.ok.inj hty
+  obtain ⟨c, p, hc, hcW, plt, ponto, plab, pker, pgen, cx, css, cts, csv, ctv, cs, ct⟩ :=
+    compose_quotient_data B hB f g hfW hgW hty'
+  have hfgW := OHG.tensorR_WF f g hfW hgW
+  -- functor data
+  obtain ⟨fw1, fx1, ok1, seg1, ops1, _⟩ := functorOK_of_hom F obj hF f hfW
+  obtain ⟨fw2, fx2, ok2, seg2, ops2, _⟩ := functorOK_of_hom F obj hF g hgW
+  obtain ⟨fw, fx, ok, seg, ops, _⟩ := functorOK_of_hom F obj hF (OHG.tensorR f g) hfgW
+  obtain ⟨fwc, fxc, okc, segc, opsc, _⟩ := functorOK_of_hom F obj hF c hcW
+  obtain ⟨rf, hrf, wrf, _, trf, q1⟩ := mapArrow_subst B hB F f fw1 fx1 hfW ok1
+  obtain ⟨rg, hrg, wrg, srg, _, q2⟩ := mapArrow_subst B hB F g fw2 fx2 hgW ok2
+  obtain ⟨r, hr, wr, _, _, qc⟩ := mapArrow_subst B hB F c fwc fxc hcW okc
+  -- the images compose
+  have htyR : rf.target = rg.source := by
+    rw [trf, srg, expandTy_eq_flatMap fw1 f.h.w obj seg1 _ hfW.tgt_lt,
+      expandTy_eq_flatMap fw2 g.h.w obj seg2 _ hgW.src_lt, hty']
+  obtain ⟨t, ht, wt, hglue, _, _⟩ := C03.compose_facts B hB rf rg wrf wrg htyR
+  refine ⟨c, r, rf, rg, t, hc, hr, hrf, hrg, ht, wr, wt, ?_⟩
+  -- the batch of `c` is the batch of `f ⊗ g`
+  have hw : (OHG.tensorR f g).h.w = f.h.w ++ g.h.w := rfl
+  have hnn : (f.h.w ++ g.h.w).length = f.h.w.length + g.h.w.length := List.length_append
+  have hgp : ∀ S : List Nat, (∀ i ∈ S, i < f.h.w.length + g.h.w.length) →
+      Prim.gatherP c.h.w (S.map p) = Prim.gatherP (f.h.w ++ g.h.w) S := by
+    intro S hS
+    rw [gatherP_map_idx]
+    exact LaxType.filterMap_congr' _ _ _ (fun i hi => plab i (hS i hi))
+  have hSlt : ∀ i ∈ (IC.tensorR f.h.s g.h.s).values.table, i < f.h.w.length + g.h.w.length := by
+    intro i hi; have := hfgW.hyper.src_lt i hi; rwa [hw, hnn] at this
+  have hTlt : ∀ i ∈ (IC.tensorR f.h.t g.h.t).values.table, i < f.h.w.length + g.h.w.length := by
+    intro i hi; have := hfgW.hyper.tgt_lt i hi; rwa [hw, hnn] at this
+  have hopsc : opsOf c = opsOf (OHG.tensorR f g) := by
+    unfold opsOf
+    rw [cx, css, cts, csv, ctv, hgp _ hSlt, hgp _ hTlt]
+    rfl
+  rw [hopsc, ops] at opsc
+  injection opsc with opsc
+  subst opsc
+  rw [opsOf_tensor f g hfW] at ops
+  have hX := hT _ _ fx1 fx2 fx (opsOf_valid f hfW) (opsOf_valid g hgW) ops1 ops2 ops
+  -- object images
+  rw [hw] at seg
+  obtain ⟨val, ks⟩ := fw_values_of_hom fw ok.valid _ obj seg
+  obtain ⟨val1, ks1⟩ := fw_values_of_hom fw1 ok1.valid _ obj seg1
+  obtain ⟨val2, ks2⟩ := fw_values_of_hom fw2 ok2.valid _ obj seg2
+  obtain ⟨valc, ksc⟩ := fw_values_of_hom fwc okc.valid _ obj segc
+  have hks : fw.sources.table = fw1.sources.table ++ fw2.sources.table := by
+    rw [ks, ks1, ks2, List.map_append]
+  have hW : fw.values = fw1.values ++ fw2.values := by
+    rw [val, val1, val2, List.flatMap_append]
+  have hn1 : f.h.w.length = fw1.sources.table.length := by rw [ks1, List.length_map]
+  have hkl : fw.sources.table.length = f.h.w.length + g.h.w.length := by
+    rw [ks, List.length_map, hnn]
+  have hkcl : fwc.sources.table.length = c.h.w.length := by rw [ksc, List.length_map]
+  -- the lifted quotient map on the expanded nodes
+  have hcp : SizeCompat fw.sources.table fwc.sources.table p := by
+    intro j hj
+    rw [hkl] at hj
+    refine ⟨by rw [hkcl]; exact plt j hj, ?_⟩
+    rw [ks, ksc]
+    simp only [List.getD_eq_getElem?_getD, List.getElem?_map, plab j hj]
+  have sumW : fw.sources.table.sum = fw.values.length := (fw_sizes fw ok.valid).2
+  have sumWc : fwc.sources.table.sum = fwc.values.length := (fw_sizes fwc okc.valid).2
+  have hpl : ∀ v, v < fw.values.length →
+      liftPos fw.sources.table fwc.sources.table p v < fwc.values.length := by
+    intro v hv; rw [← sumWc]; exact liftPos_lt hcp v (by rw [sumW]; exact hv)
+  have hpo : ∀ v', v' < fwc.values.length → ∃ v, v < fw.values.length ∧
+      liftPos fw.sources.table fwc.sources.table p v = v' := by
+    intro v' hv'
+    obtain ⟨v, h1, h2⟩ := liftPos_onto hcp (by
+      intro k hk
+      rw [hkcl] at hk
+      obtain ⟨i, hi, hik⟩ := ponto k hk
+      exact ⟨i, by rw [hkl]; exact hi, hik⟩) v' (by rw [sumWc]; exact hv')
+    exact ⟨v, by rw [← sumW]; exact h1, h2⟩
+  have hpb : ∀ i, i < fw.values.length →
+      fwc.values[liftPos fw.sources.table fwc.sources.table p i]? = fw.values[i]? := by
+    intro i hi
+    rw [← sumW] at hi
+    obtain ⟨b1, b2, b3⟩ := blk_spec _ i hi
+    obtain ⟨c1, c2⟩ := hcp _ b1
+    have hj : blkOf fw.sources.table i < f.h.w.length + g.h.w.length := by rw [← hkl]; exact b1
+    have e1 : fw.values[i]? =
+        (fw.segsL.getD (blkOf fw.sources.table i) [])[offOf fw.sources.table i]? := by
+      conv => lhs; rw [← b3]
+      exact values_getElem? fw ok.valid _ _ b1 b2
+    have e2 : fwc.values[liftPos fw.sources.table fwc.sources.table p i]? =
+        (fwc.segsL.getD (p (blkOf fw.sources.table i)) [])[offOf fw.sources.table i]? :=
+      values_getElem? fwc okc.valid _ _ c1 (by rw [c2]; exact b2)
+    rw [e1, e2, seg, segc]
+    simp only [List.getD_eq_getElem?_getD, List.getElem?_map, plab _ hj]
+  have hex : ∀ ids : List Nat, (∀ i ∈ ids, i < f.h.w.length + g.h.w.length) →
+      expand fwc (ids.map p) =
+        (expand fw ids).map (liftPos fw.sources.table fwc.sources.table p) := by
+    intro ids hids
+    rw [expand_eq fwc okc.valid, expand_eq fw ok.valid, flatMap_blockS_map_liftPos hcp]
+    intro i hi
+    rw [hkl]; exact hids i hi
+  -- expansions along the object images of `f ⊗ g` in terms of those of `f` and `g`
+  have hexL : ∀ l : List Nat, (∀ i ∈ l, i < f.h.w.length) → expand fw l = expand fw1 l := by
+    intro l hl
+    rw [expand_eq fw ok.valid, expand_eq fw1 ok1.valid, hks,
+      flatMap_blockS_append_left _ _ _ (fun i hi => by rw [← hn1]; exact hl i hi)]
+  have hexR : ∀ l : List Nat, expand fw (l.map (f.h.w.length + ·)) =
+      (expand fw2 l).map (fw1.values.length + ·) := by
+    intro l
+    rw [expand_eq fw ok.valid, expand_eq fw2 ok2.valid, hks, hn1, flatMap_blockS_append_right,
+      (fw_sizes fw1 ok1.valid).2]
+  have ex : ∀ (a b : FinFun), a.WF → a.target = f.h.w.length →
+      expand fw (FinFun.tensor a b).table =
+        expand fw1 a.table ++ (expand fw2 b.table).map (fw1.values.length + ·) := by
+    intro a b ha hat
+    show expand fw (a.table ++ b.table.map (a.target + ·)) = _
+    exact expand_tensor fw fw1 fw2 ok.valid ok1.valid ok2.valid hks _ _ _ (hat.trans hn1)
+      (fun i hi => ha i hi)
+  have e3 : expand fw (IC.tensorR f.h.s g.h.s).values.table = _ :=
+    ex f.h.s.values g.h.s.values hfW.hyper.src.range hfW.hyper.src_nodes
+  have e4 : expand fw (IC.tensorR f.h.t g.h.t).values.table = _ :=
+    ex f.h.t.values g.h.t.values hfW.hyper.tgt.range hfW.hyper.tgt_nodes
+  -- bounds
+  obtain ⟨a1, _, _⟩ := expand_spec fw1 ok1.valid f.s hfW.src_wf (hfW.src_nodes.trans ok1.len.symm)
+  obtain ⟨a2, _, _⟩ := expand_spec fw1 ok1.valid f.t hfW.tgt_wf (hfW.tgt_nodes.trans ok1.len.symm)
+  obtain ⟨a3, _, _⟩ := expand_spec fw1 ok1.valid f.h.s.values hfW.hyper.src.range
+    (hfW.hyper.src_nodes.trans ok1.len.symm)
+  obtain ⟨a4, _, _⟩ := expand_spec fw1 ok1.valid f.h.t.values hfW.hyper.tgt.range
+    (hfW.hyper.tgt_nodes.trans ok1.len.symm)
+  obtain ⟨b1, _, _⟩ := expand_spec fw2 ok2.valid g.s hgW.src_wf (hgW.src_nodes.trans ok2.len.symm)
+  obtain ⟨b2, _, _⟩ := expand_spec fw2 ok2.valid g.t hgW.tgt_wf (hgW.tgt_nodes.trans ok2.len.symm)
+  obtain ⟨b3, _, _⟩ := expand_spec fw2 ok2.valid g.h.s.values hgW.hyper.src.range
+    (hgW.hyper.src_nodes.trans ok2.len.symm)
+  obtain ⟨b4, _, _⟩ := expand_spec fw2 ok2.valid g.h.t.values hgW.hyper.tgt.range
+    (hgW.hyper.tgt_nodes.trans ok2.len.symm)
+  have lift : ∀ (l l' : List Nat), (∀ v ∈ l, v < fw1.values.length) →
+      (∀ v ∈ l', v < fw2.values.length) →
+      ∀ v ∈ l ++ l'.map (fw1.values.length + ·), v < (fw1.values ++ fw2.values).length := by
+    intro l l' h1 h2 v hv
+    rw [List.length_append]
+    rcases List.mem_append.1 hv with hv | hv
+    · have := h1 v hv; omega
+    · obtain ⟨j, hj', rfl⟩ := List.mem_map.1 hv
+      have := h2 j hj'; omega
+  have X1 := C03.wfP ((OHG.wf_iff fx1).2 ok1.wf)
+  have X2 := C03.wfP ((OHG.wf_iff fx2).2 ok2.wf)
+  have Xw := C03.wfP ((OHG.wf_iff fx).2 ok.wf)
+  -- the presentation of `F(c)`
+  rw [substPre_eq, substRel_eq, cs, ct, csv, ctv, hex _ (fun i hi => by have := hfW.src_lt i hi; omega),
+    hex _ (fun i hi => by
+      obtain ⟨j, hj, rfl⟩ := List.mem_map.1 hi
+      have := hgW.tgt_lt j hj; omega),
+    hex _ hSlt, hex _ hTlt, hexL _ hfW.src_lt, hexR, e3, e4] at qc
+  -- the presentation of `F(f) ; F(g)`
+  rw [substPre_eq, substRel_eq] at q1 q2
+  obtain ⟨l1, l2⟩ := fx_lengths hfW ok1
+  have hG := subst_glue X1 X2 a1 a2 a3 a4 b1 b2 b3 b4 l1 l2 q1 q2 hglue
+  -- the two generating relations generate the same equivalence
+  have EA : expand fw f.t.table = expand fw1 f.t.table := hexL _ hfW.tgt_lt
+  have EB : expand fw (g.s.table.map (f.h.w.length + ·)) =
+      (expand fw2 g.s.table).map (fw1.values.length + ·) := hexR _
+  have hPn := substP_n (fw1.values ++ fw2.values) (expand fw1 f.s.table)
+    ((expand fw2 g.t.table).map (fw1.values.length + ·)) (PDiag.juxt fx1.toPlain fx2.toPlain)
+  have hWl : (fw1.values ++ fw2.values).length = fw.values.length := by rw [hW]
+  have hmapped : (expand fw f.t.table).map (liftPos fw.sources.table fwc.sources.table p) =
+      (expand fw (g.s.table.map (f.h.w.length + ·))).map
+        (liftPos fw.sources.table fwc.sources.table p) := by
+    rw [← hex _ (fun i hi => by have := hfW.tgt_lt i hi; omega), ← hex _ (fun i hi => by
+      obtain ⟨j, hj, rfl⟩ := List.mem_map.1 hi
+      have := hgW.src_lt j hj; omega), pgen]
+  have hlen : f.t.table.length = (g.s.table.map (f.h.w.length + ·)).length := by
+    have := congrArg List.length hty'
+    rw [FinFun.gatherP_length _ _ hfW.tgt_lt, FinFun.gatherP_length _ _ hgW.src_lt] at this
+    rw [List.length_map]; exact this
+  have hsz : ∀ pr ∈ f.t.table.zip (g.s.table.map (f.h.w.length + ·)),
+      fw.sources.table.getD pr.1 0 = fw.sources.table.getD pr.2 0 := by
+    intro pr hpr
+    obtain ⟨k, hk⟩ := List.mem_iff_getElem?.1 hpr
+    obtain ⟨h1, h2⟩ := List.getElem?_zip_eq_some.1 hk
+    rw [List.getElem?_map] at h2
+    cases hb : g.s.table[k]? with
+    | none => rw [hb] at h2; cases h2
+    | some b =>
+      rw [hb] at h2
+      have e2 : pr.2 = f.h.w.length + b := (Option.some.inj h2).symm
+      have ha := hfW.tgt_lt _ (List.mem_of_getElem? h1)
+      have hb' := hgW.src_lt _ (List.mem_of_getElem? hb)
+      have := congrArg (·[k]?) hty'
+      simp only [FinFun.gatherP_getElem? _ _ hfW.tgt_lt, FinFun.gatherP_getElem? _ _ hgW.src_lt,
+        h1, hb, Option.bind_some] at this
+      rw [ks, e2]
+      simp only [List.getD_eq_getElem?_getD, List.getElem?_map,
+        List.getElem?_append_left ha, List.getElem?_append_right (Nat.le_add_right _ _),
+        Nat.add_sub_cancel_left, this]
+  have hG' := IsQuot.congr_eqv (R' := fun a b =>
+      (a < (fw1.values ++ fw2.values).length ∧ b < (fw1.values ++ fw2.values).length ∧
+        liftPos fw.sources.table fwc.sources.table p a =
+          liftPos fw.sources.table fwc.sources.table p b) ∨
+      substR (fw1.values ++ fw2.values)
+        (expand fw1 f.h.s.values.table ++ (expand fw2 g.h.s.values.table).map (fw1.values.length + ·))
+        (expand fw1 f.h.t.values.table ++ (expand fw2 g.h.t.values.table).map (fw1.values.length + ·))
+        (PDiag.juxt fx1.toPlain fx2.toPlain) a b) hG (by
+    intro i j _ _
+    constructor
+    · refine EqvOn.map (φ := fun x => x) ?_
+      rintro a b ha hb (hr | ⟨k, h1, h2⟩)
+      · exact EqvOn.of_rel ha hb (Or.inr hr)
+      · refine EqvOn.of_rel ha hb (Or.inl ?_)
+        cases hc' : (expand fw2 g.s.table)[k]? with
+        | none => rw [hc'] at h2; cases h2
+        | some b0 =>
+          rw [hc'] at h2
+          have eb : b = fw1.values.length + b0 := (Option.some.inj h2).symm
+          have hal := a2 a (List.mem_of_getElem? h1)
+          have hbl := b1 b0 (List.mem_of_getElem? hc')
+          refine ⟨by rw [List.length_append]; omega, by rw [List.length_append]; omega, ?_⟩
+          have := congrArg (·[k]?) hmapped
+          rw [EA, EB] at this
+          simp only [List.getElem?_map, h1, hc', Option.map_some, Option.some.injEq] at this
+          rw [eb]; exact this
+    · refine EqvOn.map (φ := fun x => x) ?_
+      rintro a b ha hb (⟨hal, hbl, e⟩ | hr)
+      · rw [hWl, ← sumW] at hal hbl
+        obtain ⟨x1, x2, x3⟩ := blk_spec _ a hal
+        obtain ⟨y1, y2, y3⟩ := blk_spec _ b hbl
+        obtain ⟨e1, e2⟩ := liftPos_eq hcp a b hal hbl e
+        have hk := (pker _ _ (by rw [← hkl]; exact x1) (by rw [← hkl]; exact y1)).1 e1
+        obtain ⟨_, hl'⟩ := lift_glue fw.sources.table _ _ hlen hsz hk
+        have := hl' _ x2
+        rw [x3, e2, y3] at this
+        refine EqvGen.mono ?_ _ _ this
+        rintro x y ⟨k, h1, h2⟩
+        rw [← expand_eq fw ok.valid, EA] at h1
+        rw [← expand_eq fw ok.valid, EB, List.getElem?_map] at h2
+        have hx := a2 x (List.mem_of_getElem? h1)
+        cases hc' : (expand fw2 g.s.table)[k]? with
+        | none => rw [hc'] at h2; cases h2
+        | some b0 =>
+          rw [hc'] at h2
+          have ey : y = fw1.values.length + b0 := (Option.some.inj h2).symm
+          have hbl' := b1 b0 (List.mem_of_getElem? hc')
+          refine ⟨by rw [hPn, List.length_append]; omega, by rw [hPn, List.length_append]; omega,
+            Or.inr ⟨k, h1, by rw [hc', ey]; rfl⟩⟩
+      · exact EqvOn.of_rel ha hb (Or.inl hr))
+  -- push the presentation down along the lifted quotient map
+  have hQ := subst_quotient (π := liftPos fw.sources.table fwc.sources.table p)
+    (W' := fwc.values) (juxt_wf X1 X2)
+    (fun v hv => by have := a1 v hv; rw [List.length_append]; omega)
+    (fun v hv => by
+      obtain ⟨j, hj, rfl⟩ := List.mem_map.1 hv
+      have := b2 j hj; rw [List.length_append]; omega)
+    (lift _ _ a3 b3) (lift _ _ a4 b4)
+    (fun v hv => hpl v (hWl ▸ hv))
+    (fun v' hv' => by
+      obtain ⟨v, h1, h2⟩ := hpo v' hv'
+      exact ⟨v, hWl ▸ h1, h2⟩)
+    (fun v hv => by rw [← hW]; exact hpb v (hWl ▸ hv)) hG'
+  have mlt : ∀ l : List Nat, (∀ v ∈ l, v < (fw1.values ++ fw2.values).length) →
+      ∀ v ∈ l.map (liftPos fw.sources.table fwc.sources.table p), v < fwc.values.length := by
+    intro l hl v hv
+    obtain ⟨j, hj, rfl⟩ := List.mem_map.1 hv
+    exact hpl j (hWl ▸ hl j hj)
+  exact subst_congr Xw
+    (mlt _ (fun v hv => by have := a1 v hv; rw [List.length_append]; omega))
+    (mlt _ (fun v hv => by
+      obtain ⟨j, hj, rfl⟩ := List.mem_map.1 hv
+      have := b2 j hj; rw [List.length_append]; omega))
+    (mlt _ (lift _ _ a3 b3)) (mlt _ (lift _ _ a4 b4)) hX qc hQ
+
+/-- the hypotheses of `map_comp` (and `map_tensor`) hold for the strict identity functor and for the
+    size-changing functor `tyExG`, on the composable pair `C01.exF ; C01.exG` -/
+example : FunctorHom (SFunctor.identityF (O := Nat) (A := Nat)) (fun o => [o]) ∧
+    OpsTensor (SFunctor.identityF (O := Nat) (A := Nat)) ∧
+    FunctorHom (LFunctor.toDyn vecBackend tyExG) tyExG.mapObject ∧
+    OpsTensor (LFunctor.toDyn vecBackend tyExG) ∧
+    C01.exF.wf = true ∧ C01.exG.wf = true ∧ C01.exF.target = C01.exG.source :=
+  ⟨identityF_hom, identityF_opsTensor,
+    dyn_hom vecBackend vecBackend_lawful tyExG _
+      (fun a s t => genOK_singleton (fun o => List.replicate (o - 10) o) (fun a _ _ => a + 1) a s t),
+    dyn_opsTensor vecBackend vecBackend_lawful tyExG _
+      (fun a s t => genOK_singleton (fun o => List.replicate (o - 10) o) (fun a _ _ => a + 1) a s t),
+    by decide, by decide, by decide⟩
+
+/-- a functor that doubles every object (`o ↦ [o, o]`) and sends every operation to a single
+    operation on the doubled types, on the composite `C01.exF ; C01.exG` (whose gluing merges four
+    nodes into one): both sides of `map_comp`, Vec backend -/
+example :
+    (OHG.toPlain <$> (OHG.compose vecBackend C01.exF C01.exG >>=
+      SFunctor.mapArrow vecBackend (LFunctor.toDyn vecBackend C13.dbl))) =
+      .ok ⟨[10, 10, 20, 20, 30, 30], [⟨7, [0, 1], [2, 3, 2, 3]⟩, ⟨8, [2, 3, 2, 3], [4, 5]⟩],
+        [0, 1], [4, 5]⟩ ∧
+    (OHG.toPlain <$> (SFunctor.mapArrow vecBackend (LFunctor.toDyn vecBackend C13.dbl) C01.exF >>=
+      fun a => SFunctor.mapArrow vecBackend (LFunctor.toDyn vecBackend C13.dbl) C01.exG >>=
+      fun b => OHG.compose vecBackend a b)) =
+      .ok ⟨[10, 10, 20, 20, 30, 30], [⟨7, [0, 1], [2, 3, 2, 3]⟩, ⟨8, [2, 3, 2, 3], [4, 5]⟩],
+        [0, 1], [4, 5]⟩ := by decide
+
+/-- DISCREPANCY: well-typedness of the functor data (`FunctorHom`) alone does NOT give
+    preservation of the tensor (nor of composition).  `countF` is the identity on objects and maps
+    a batch to the tensor of its operations, each RELABELLED by the size of the batch — the
+    `map_operations` of the `Functor` trait receives whole batches, so nothing forces it to act
+    operation-wise. -/
+def countF : SFunctor Nat Nat Nat Nat :=
+  ⟨fun a => IC.elements a, fun ops =>
+    OHG.tensorOperations ⟨ops.x.map (fun _ => ops.x.length), ops.a, ops.b⟩⟩
+
+theorem countF_hom : FunctorHom countF (fun o => [o]) := by
+  refine ⟨?_, ?_⟩
+  · intro a
+    obtain ⟨c, hc, hs, hv, _⟩ := identityF_mapObject (A := Nat) a
+    exact ⟨c, hc, hv, hs⟩
+  · intro ops ha hb hla hlb
+    obtain ⟨r, hr, hw, hs, ht, _⟩ := C05.tensorOperations_wf_type
+      ⟨ops.x.map (fun _ => ops.x.length), ops.a, ops.b⟩ ha hb
+      (by simpa using hla) (by simpa using hlb)
+    refine ⟨r, hr, hw, ?_, ?_⟩
+    · rw [hs]; simp
+    · rw [ht]; simp
+
+/-- … `countF(f ⊗ f)` carries the edge labels `2, 2`, `countF(f) ⊗ countF(f)` the labels `1, 1` -/
+theorem map_tensor_needs_opsTensor :
+    FunctorHom countF (fun o => [o]) ∧ tyExF.wf = true ∧
+    ∃ r t : OHG Nat Nat,
+      (OHG.tensor tyExF tyExF >>= SFunctor.mapArrow vecBackend countF) = .ok r ∧
+      (SFunctor.mapArrow vecBackend countF tyExF >>= fun rf => OHG.tensor rf rf) = .ok t ∧
+      ¬ (r.toPlain ≅ t.toPlain) := by
+  have e1 : OHG.toPlain <$> (OHG.tensor tyExF tyExF >>= SFunctor.mapArrow vecBackend countF) =
+      .ok ⟨[10, 11, 12, 10, 11, 12], [⟨2, [0, 1], [2]⟩, ⟨2, [3, 4], [5]⟩], [0, 0, 3, 3],
+        [2, 1, 5, 4]⟩ := by decide
+  have e2 : OHG.toPlain <$> (SFunctor.mapArrow vecBackend countF tyExF >>= fun rf =>
+      OHG.tensor rf rf) =
+      .ok ⟨[10, 11, 12, 10, 11, 12], [⟨1, [0, 1], [2]⟩, ⟨1, [3, 4], [5]⟩], [0, 0, 3, 3],
+        [2, 1, 5, 4]⟩ := by decide
+  refine ⟨countF_hom, by decide, ?_⟩
+  cases h1 : (OHG.tensor tyExF tyExF >>= SFunctor.mapArrow vecBackend countF) with
+  | none => rw [h1] at e1; cases e1
+  | panic m => rw [h1] at e1; cases e1
+  | ok r =>
+    cases h2 : (SFunctor.mapArrow vecBackend countF tyExF >>= fun rf => OHG.tensor rf rf) with
+    | none => rw [h2] at e2; cases e2
+    | panic m => rw [h2] at e2; cases e2
+    | ok t =>
+      rw [h1] at e1
+      rw [h2] at e2
+      have p1 : r.toPlain = _ := Res.ok.inj e1
+      have p2 : t.toPlain = _ := Res.ok.inj e2
+      refine ⟨r, t, rfl, rfl, ?_⟩
+      rw [p1, p2]
+      rintro ⟨π, ρ, _, bρ, _, he, _⟩
+      have h0 := he 0 (by decide)
+      have hρ : ρ 0 < 2 := bρ.1 0 (by decide)
+      have hcases : ρ 0 = 0 ∨ ρ 0 = 1 := by omega
+      rcases hcases with h | h
+      · rw [h] at h0
+        simp [PEdge.mapNodes] at h0
+      · rw [h] at h0
+        simp [PEdge.mapNodes] at h0
 
 end OH.C12
